@@ -326,6 +326,33 @@ def power_above_proof():
     return [("lemma-step", "power_above", [power_mono(k), k >= 1, m >= 0, pw(k, m) >= n, d >= m], pw(k, d) >= n)] + power_mono_proof()
 
 
+def _seq_eq(a, b):
+    j = z3.Int("j!eq")
+    return z3.And(S.f_len(a) == S.f_len(b),
+                  z3.ForAll([j], z3.Implies(z3.And(0 <= j, j < S.f_len(a)), S.f_at(a, j) == S.f_at(b, j)),
+                            patterns=[S.f_at(a, j), S.f_at(b, j)]))
+
+
+def eq_sums(a, b):
+    """equal sequences have equal prefix sums (in particular equal sums)"""
+    i = z3.Int("i!es")
+    return z3.Implies(_seq_eq(a, b),
+                      z3.ForAll([i], z3.Implies(z3.And(0 <= i, i <= S.f_len(a)), S.f_prefix(a, i) == S.f_prefix(b, i)),
+                                patterns=[S.f_prefix(a, i), S.f_prefix(b, i)]))
+
+
+def eq_sums_proof():
+    a = z3.Const("a!l", S.SeqSort)
+    b = z3.Const("b!l", S.SeqSort)
+    k = z3.Int("k!l")
+    eq = _seq_eq(a, b)
+    return [
+        ("lemma-base", "eq_sums", [eq], S.f_prefix(a, 0) == S.f_prefix(b, 0)),
+        ("lemma-step", "eq_sums", [eq, 0 <= k, k < S.f_len(a), S.f_prefix(a, k) == S.f_prefix(b, k)],
+         S.f_prefix(a, k + 1) == S.f_prefix(b, k + 1)),
+    ]
+
+
 def mul_mono(a, g, t):
     """a >= 0 and g <= t  =>  a * g <= a * t, and the products are non-negative when g is (also read as reals)"""
     ra, rg, rt = z3.ToReal(a), z3.ToReal(g), z3.ToReal(t)
@@ -339,6 +366,7 @@ def mul_mono_proof():
 
 
 LEMMAS = {
+    "eq_sums": (eq_sums, eq_sums_proof),
     "mul_mono": (mul_mono, mul_mono_proof),
     "power_above": (power_above, power_above_proof),
     "power_mono": (power_mono, power_mono_proof),
